@@ -565,12 +565,16 @@ def generate(rng, idx, tier, variant):
                 # a fill keyword spelt as an alias: not a name the container's index knows, so rejected under strict
                 # (and otherwise applied to nothing) - never accepted and then dropped
                 fills[rng.choice(spec['aliases'])[0]] = rng.choice([1, 3.5])
+            fill_cb = None
+            if rng.random() < 0.15:
+                # a fill value that is an object: converting it to a number calls back into the object being reindexed
+                fill_cb = {'what': rng.choice(['nested_reindex', 'nested_reindex', 'add_variable', 'add_variable', 'copy']), 'k': rng.randrange(1000)}
             pd_args = None
             if 'pandasmixin' in spec['family'] and rng.random() < 0.3:
                 # the pandas extension's own arguments (fill methods, fill values of another type): whatever they fill
                 # in, every series keeps its length and its dtype
                 pd_args = rng.choice([{'method': 'ffill'}, {'method': 'bfill'}, {'method': 'nearest'}, {'fill_value': 2.5}, {'fill_value': 0}, {'ffill_': '?'}, {'bfill_': '?'}, {'fills': 7.5}, {'method': 'ffill', 'limit': 1}])
-            ops.append({'op': 'reindex', 'obj': p, 'pd_args': pd_args, 'idx': idxs, 'as': rng.choice(['same', 'same', 'list', 'np', 'pd']), 'fill_value': fv, 'fills': fills, 'strict': rng.choice([None, None, True, False]), 'mode': rng.choice(['idx'] * 8 + ['same-object', 'range-phase']), 'k': rng.randrange(3)})
+            ops.append({'op': 'reindex', 'obj': p, 'pd_args': pd_args, 'fill_cb': fill_cb, 'idx': idxs, 'as': rng.choice(['same', 'same', 'list', 'np', 'pd']), 'fill_value': fv, 'fills': fills, 'strict': rng.choice([None, None, True, False]), 'mode': rng.choice(['idx'] * 8 + ['same-object', 'range-phase']), 'k': rng.randrange(3)})
             if g['np'] < MAXP:
                 g['names'][g['np']] = list(names)
                 g['np'] += 1
@@ -1739,6 +1743,39 @@ def execute(schedule, ctx):
         ctx.state([kind, outcome, [[str(a.dtype), canon(a.tolist())] for a in party.ref.values()][:6], bool(d['_strict'])])
 
 
+class CallbackNumber:
+    """A fill value that is an object: turning it into a number (or a string) runs the user's code first."""
+
+    def __init__(self, value, fn):
+        self.value, self.fn, self.calls = value, fn, 0
+
+    def _cb(self):
+        if not self.calls:
+            self.calls = 1
+            try:
+                self.fn()
+            except Exception:
+                pass
+
+    def __float__(self):
+        self._cb()
+        return float(self.value)
+
+    def __int__(self):
+        self._cb()
+        return int(self.value)
+
+    __index__ = __int__
+
+    def __bool__(self):
+        self._cb()
+        return bool(self.value)
+
+    def __str__(self):
+        self._cb()
+        return str(self.value)
+
+
 class BackRef:
     """An attribute that refers back to the object it hangs on, and whose copy is made by asking that object for a copy /
     reindexed version of itself (re-entrant use of copy() / reindex() from inside a copy under way)."""
@@ -2090,11 +2127,63 @@ def do_reindex(fsic, parties, party, op, ctx, before_obs, universe_spec, spec):
         kw['fill_value'] = fv
     if strict_arg is not None:
         kw['strict'] = strict_arg
+    cbn = None
+    fcb = op.get('fill_cb')
+    numeric = [k_ for k_, v_ in kw.items() if k_ != 'strict' and isinstance(v_, (int, float)) and not isinstance(v_, bool) and (k_ == 'fill_value' or k_ in d['index'])]
+    if fcb and any(isinstance(v_, BackRef) for v_ in d.values()):
+        fcb = None  # (one source of re-entrant calls at a time: their relative order inside reindex() is not prescribed)
+    if fcb and numeric and not pandas_mixin and not unknown:
+        key_ = numeric[fcb['k'] % len(numeric)]
+        seen = {}
+        own_strict = bool(d['_strict'])
+        rx = 'RX%d' % fcb['k']
+
+        def fn_():
+            if fcb['what'] == 'nested_reindex':
+                try:
+                    x.reindex(d['span'], NOPE_=1)  # (strict left to the object's own switch)
+                    seen['r'] = 'accepted'
+                except KeyError:
+                    seen['r'] = 'KeyError'
+            elif fcb['what'] == 'add_variable':
+                if rx not in d['index']:
+                    x.add_variable(rx, 2.5)
+                    seen['added'] = rx
+            else:
+                x.copy()
+
+        cbn = CallbackNumber(kw[key_], fn_)
+        kw[key_] = cbn
     try:
         y = x.reindex(new_span, **kw)
         e = None
     except Exception as ex:
         y, e = None, ex
+    if cbn is not None and cbn.calls:
+        ctx.probe('fill-value-calls-back:' + fcb['what'])
+        ctx.fault('callback-into-library')
+        if 'r' in seen:
+            # a reindex() nested in a reindex(strict=...) goes by the object's own switch, not by the outer call's keyword
+            ctx.check('C12', 're-entrant/nested-reindex-goes-by-the-objects-own-strict', seen['r'] == ('KeyError' if own_strict else 'accepted'), {'nested': seen['r'], 'object-strict': own_strict, 'outer-strict-keyword': strict_arg})
+        if seen.get('added'):
+            # the variable the callback added is the callback's: whatever the result made of it, every series the result
+            # lists has one element per period of the new span
+            if y is not None:
+                yd_ = y.__dict__
+                ragged = [nm_ for nm_ in yd_['index'] if not (isinstance(yd_.get('_' + nm_), np.ndarray) and yd_['_' + nm_].shape == (len(new_labels),))]
+                ctx.check('C12', 're-entrant/result-has-one-element-per-period-in-every-series', not ragged, {'ragged': ragged[:4]})
+                for host in (yd_,):
+                    if rx in host['index']:
+                        host['index'].remove(rx)
+                        host.pop('_' + rx, None)
+                        if rx in host.get('names', []):
+                            host['names'].remove(rx)
+            for host in (d,):
+                if rx in host['index']:
+                    host['index'].remove(rx)
+                    host.pop('_' + rx, None)
+                    if rx in host.get('names', []):
+                        host['names'].remove(rx)
     if unknown and eff_strict:
         ctx.probe('reindex:unknown-fill-under-strict')
         ctx.check('C12', 'unknown-fill-name/KeyError-under-strict', isinstance(e, KeyError), {'exc': type(e).__name__ if e else None, 'unknown': unknown})
@@ -2171,7 +2260,8 @@ def do_reindex(fsic, parties, party, op, ctx, before_obs, universe_spec, spec):
                     ctx.check('C12', f'{sig}/overlap/object-{relation}', O.obs_value(got[p_]) == O.obs_value(old_[j_]), {'name': nm, 'period': p_})
                 elif want_fill is not None and not pandas_mixin:
                     # a fill that was asked for applies to this series as to any other (no default is defined for it)
-                    ctx.check('C12', f'{sig}/fill/object-explicit', type(got[p_]) is type(want_fill) and got[p_] == want_fill, {'name': nm, 'period': p_, 'got': repr(got[p_])[:40], 'want': repr(want_fill)})
+                    passed_ = kw.get(nm, kw.get('fill_value'))  # (the very object the caller passed, where the fill is an object)
+                    ctx.check('C12', f'{sig}/fill/object-explicit', got[p_] is passed_ or (type(got[p_]) is type(want_fill) and got[p_] == want_fill), {'name': nm, 'period': p_, 'got': repr(got[p_])[:40], 'want': repr(want_fill)})
             continue
         if nm in expected and got.shape == expected[nm].shape and got.dtype == expected[nm].dtype:
             kindname = {'f': 'float', 'i': 'int', 'u': 'int', 'b': 'bool', 'U': 'str'}.get(got.dtype.kind, 'other')
